@@ -87,6 +87,19 @@ def check_case(rec, case):
                 answers.append(o.value)
         if None not in answers and answers[0] != answers[1]:
             rec.violation(name + ':asymmetric', '%s(D1,D2) = %s but %s(D2,D1) = %s' % (name, answers[0], name, answers[1]), D1=R1, D2=R2)
+    if case.get('requery', len(R1[0]) >= 2 and len(R1[0]) + len(R2[0]) >= 5):
+        # the same two OBJECTS asked, one of them changed in place, asked again (the contract judges every call against the
+        # content of the operands at the time of the call)
+        D1, D2 = adapt.build_dfa(R1, scramble=case.get('scr')), adapt.build_dfa(R2)
+        for round_ in (0, 1, 2):
+            for name in FUNCS:
+                o = call(getattr(da, name), D1, D2)
+                _LM.end()
+                if not o.ok:
+                    report_failure(rec, o, name, D1=adapt.dfa_ref(D1), D2=adapt.dfa_ref(D2), after_in_place_change=round_)
+            if not common.mutate_in_place(D1 if round_ == 0 else D2, repr((R1, R2, round_))):
+                break
+            rec.counters['requery_after_in_place_change'] += 1
 
 
 def junk(rng, R):
